@@ -431,6 +431,15 @@ V("f-crev-compile-alt-break", "fire", ["C19"], CRV, "            if not v_dict a
 V("f-save-skip-first-attr", "fire", ["C20"], PO, "        for attr in non_picklable_attrs:\n            if hasattr(self, attr):\n                non_picklable_backups[attr]", "        for attr in non_picklable_attrs[1:]:\n            if hasattr(self, attr):\n                non_picklable_backups[attr]",
   note="campaign 5: the optimiser stays attached and is pickled along")
 V("s-getstate-no-copy", "silent", ["C20"], PO, "        return self.__dict__.copy()\n", "        return self.__dict__\n", note="what the default __getstate__ does")
+V("f-shortcut-only-default-mode", "fire", ["C01", "C09"], INF, "        if is_unsat(query.antecedence) or is_unsat(\n            And(query.antecedence, Not(query.consequence))\n        ):\n            logger.debug(\"general_inference query selffullfilling\")\n            return True\n        else:\n            return self._inference(query, weakly, deadline)\n",
+  "            if is_unsat(query.antecedence) or is_unsat(\n                And(query.antecedence, Not(query.consequence))\n            ):\n                logger.debug(\"general_inference query selffullfilling\")\n                return True\n        return self._inference(query, weakly, deadline)\n",
+  note="campaign 6: the short cut slipped under `if weakly is None:` - a caller that names the mode loses it")
+V("f-b2c-f-nested-in-v", "fire", ["C15", "C04"], TS, "            if f:\n                g2 = t(z3.And(antecedence, z3.Not(consequence)))\n                f_dict = cast(\n                    dict[int, list[list[int]]], self.epistemic_state[\"f_cnf_dict\"]\n                )  # type: ignore[assignment]\n                f_dict[index] = self.goal2intcnf(g2[0])\n",
+  "                if f:\n                    g2 = t(z3.And(antecedence, z3.Not(consequence)))\n                    f_dict = cast(\n                        dict[int, list[list[int]]], self.epistemic_state[\"f_cnf_dict\"]\n                    )  # type: ignore[assignment]\n                    f_dict[index] = self.goal2intcnf(g2[0])\n",
+  note="campaign 6: the falsification CNFs are only built when the verification CNFs are (lex_inf and system-w switch v off)")
+V("f-w-result-after-loop", "fire", ["C03"], SW, "            if result == False:\n                return False\n        return True\n", "        if result == False:\n            return False\n        return True\n",
+  note="campaign 6: only the tie handled last decides")
+V("f-tpo2ranks-return-in-loop", "fire", ["C18"], PO, "            ranks[world] = rank_function(layer_num)\n    return ranks\n", "            ranks[world] = rank_function(layer_num)\n        return ranks\n")
 
 
 def main():
